@@ -14,6 +14,7 @@ import (
 	"github.com/buildbarn/bb-storage/pkg/blobstore/slicing"
 	"github.com/buildbarn/bb-storage/pkg/digest"
 
+	"golang.org/x/sync/semaphore"
 	"google.golang.org/grpc/codes"
 	"google.golang.org/grpc/status"
 )
@@ -501,4 +502,45 @@ type verifWholeSlicer struct{}
 
 func (verifWholeSlicer) Slice(b buffer.Buffer, childDigest digest.Digest) (buffer.Buffer, []slicing.BlobSlice) {
 	return b, nil
+}
+
+
+// Verif_C11_M7_LossyRepairIsNotNotFound: the mirrored pair over the
+// copy-then-read-back replicator strategies (concurrency-limiting, deduplicating):
+// the object is held by the replica consulted second only, and the replica consulted
+// first acknowledges the repair write without holding the object afterwards (an
+// evicting or just-rotated store). The read then fails - but never with NOT_FOUND,
+// because a replica does hold the object.
+func Verif_C11_M7_LossyRepairIsNotNotFound() {
+	ctx := context.Background()
+	objs := verifstub.Universe("inst", 1)
+	a := verifstub.NewReliableModel("replica-a", objs)
+	b := verifstub.NewReliableModel("replica-b", objs)
+	mk := func(src, dst *verifstub.Model) replication.BlobReplicator {
+		base := replication.NewLocalBlobReplicator(src, dst)
+		if vnd.Choose(2) == 1 {
+			vnd.Cover("m7-deduplicating")
+			return replication.NewDeduplicatingBlobReplicator(base, dst, digest.KeyWithoutInstance)
+		}
+		vnd.Cover("m7-limiting")
+		return replication.NewConcurrencyLimitingBlobReplicator(base, dst, semaphore.NewWeighted(1))
+	}
+	ba := NewMirroredBlobAccess(a, b, mk(a, b), mk(b, a)).(*mirroredBlobAccess)
+	first, second := a, b
+	if vnd.Choose(2) == 1 {
+		ba.round.Store(1)
+		first, second = b, a
+	}
+	first.Present[0], second.Present[0] = false, true
+	first.LosePut = vnd.Choose(2) == 1
+	data, err := ba.Get(ctx, objs[0].Digest).ToByteSlice(100)
+	if first.LosePut {
+		vnd.Cover("m7-repair-lost")
+		vnd.Assert(err != nil, "the read succeeded although the replica consulted first does not hold the object after the repair")
+		vnd.Assert(status.Code(err) != codes.NotFound, "an object held by one replica was reported as NOT_FOUND because the other replica lost the repair write")
+	} else {
+		vnd.Cover("m7-repaired")
+		vnd.Assert(err == nil && string(data) == string(objs[0].Data), "read-through repair through a copy-then-read-back replicator failed although nothing fails")
+		vnd.Assert(first.Present[0], "after a successful read-through the replica consulted first still lacks the object")
+	}
 }
